@@ -280,6 +280,35 @@ func truncStreams(c *ev.Ctx) []tstream {
 		}
 		add(tstream{ID: fmt.Sprintf("multi%d", i), Format: "xz-multi", B: b, Content: content, Legal: legal, Feat: fmt.Sprintf("%d streams with padding", ns)})
 	}
+	// streams longer than the reader's window (4 KiB): the decoder's ring buffer wraps, inside
+	// raw chunks (incompressible data), compressed chunks, and at their borders
+	nw := 4
+	if thorough(c) {
+		nw = 24
+	}
+	for i := 0; i < nw; i++ {
+		shape := [][2]string{{"random", ""}, {"text", "random"}, {"random", "text"}, {"lowent", "random"}}[i%4]
+		n := r.Pick(4200, 4700, 6000, 9000)
+		d := gen.Data(r, shape[0], n)
+		if shape[1] != "" {
+			d = append(d[:n/2:n/2], gen.Data(r, shape[1], n-n/2)...)
+		}
+		var buf bytes.Buffer
+		if w, err := (lzma.Writer2Config{DictCap: 4096, BufSize: 4096}).NewWriter2(&buf); err == nil {
+			w.Write(d)
+			w.Close()
+			add(tstream{ID: fmt.Sprintf("wrap2-%d", i), Format: "lzma2", B: buf.Bytes(), Content: d, Dict: 4096, Feat: "content longer than the window: " + shape[0] + "+" + shape[1]})
+		}
+		switch i % 2 {
+		case 0:
+			add(tstream{ID: fmt.Sprintf("wrapxz-%d", i), Format: "xz", B: libWriteXZ(xz.WriterConfig{DictCap: 4096, BlockSize: int64(r.Pick(0, 5000))}, d), Content: d, Feat: "content longer than the window"})
+		case 1:
+			k := lzCase{LC: 3, LP: 0, PB: 2, DictCap: 4096, BufSize: 4096, Mode: i % 3, Part: "one"}
+			if sk, dev, pn := runLZWriter(k, d); dev == "" && pn == nil {
+				add(tstream{ID: fmt.Sprintf("wraplzma-%d", i), Format: "lzma", B: sk.Buf, Content: d, Feat: "content longer than the window"})
+			}
+		}
+	}
 	// long streams: cuts enumerated in windows around structure boundaries
 	if thorough(c) {
 		for i := 0; i < 30; i++ {
